@@ -711,6 +711,16 @@ func reviseSeverity(err error) error {
 		return nil
 	}
 	if e, ok := err.(maybeTaskFatalErr); ok {
+		if errors.IsTemporary(e.error) {
+			// Machine.RetryCall retries temporary errors without bound, so
+			// a task whose application code keeps failing temporarily
+			// would be retried forever. Strip the severity: the task is
+			// then marked lost and resubmitted by the evaluator, which
+			// gives up after a bounded number of consecutive losses.
+			stripped := *errors.Recover(e.error)
+			stripped.Severity = errors.Unknown
+			return &stripped
+		}
 		return e.error
 	}
 	if e, ok := err.(*errors.Error); ok && e != nil && e.Severity == errors.Fatal {
